@@ -228,6 +228,7 @@ def pred_of(op, args, arm, dim=3):
     types = (VectorFunction, ScalarFunction)
 
     def through_sums(terms_of):
+        found = []
         for cand in terms_of:
             try:
                 a = real_arm(op, cand, dim)
@@ -235,8 +236,11 @@ def pred_of(op, args, arm, dim=3):
             except Exception:  # noqa
                 p = "none"
             if p != "none":
-                return p
-        return "none"
+                found.append(p)
+        for first in ("no-noncommutative-factor", "commutative-nonscalar-factor"):    # a raise dominates
+            if first in found:
+                return first
+        return found[0] if found else "none"
     if arm == "add":
         return through_sums([[t] for t in args[0].args])
     if arm == "add-1":
